@@ -144,7 +144,6 @@ func main() {
 		panic(err)
 	}
 	// one reference chain per seed, snapshots at every needed height
-	type key struct{ seed int64 }
 	refs := map[int64]*reference{}
 	need := map[int64]map[int]bool{}
 	maxN := map[int64]int{}
